@@ -18,6 +18,9 @@ DEFINITE = (
     "failed this postcondition",
     "recursive call may not terminate",
     "loop invariant",
+    # a closure literal annotated (R13) with `ensures`: its body does not establish what the annotation says
+    "unable to prove post-condition of closure",
+    "unable to prove assertion safety condition",
 )
 RLIMIT = ("rlimit", "resource limit", "timed out", "timeout")
 
